@@ -117,7 +117,7 @@ func runMustCheck(p *Program, r *RuleResult) {
 							return true
 						}
 					case *ssa.Extract:
-						if ta, ok := x.Tuple.(*ssa.TypeAssert); ok && x.Index == 1 && ta.CommaOk && inD(ta.X) && !typeIsInterface(ta.AssertedType) {
+						if ax, at, ok := p.assertOf(x); ok && x.Index == 1 && inD(ax) && !typeIsInterface(at) {
 							return true
 						}
 					}
